@@ -222,6 +222,8 @@ pub fn search_with_timeout_and_memory<M: Mode>(
                 eprintln!("LP: Problem has {} vars, {} constraints", lp_problem.n_vars, lp_problem.n_constraints);
             }
             
+            #[cfg(selen_verif)]
+            crate::verif_hooks::record_root_lp(&linear_system.variables, &lp_problem);
             // Capture LP statistics before solving
             lp_constraint_count = linear_system.constraints.len();
             lp_variable_count = linear_system.variables.len();
@@ -239,6 +241,8 @@ pub fn search_with_timeout_and_memory<M: Mode>(
             
             match crate::lpsolver::solve_with_config(&lp_problem, &lp_config) {
                 Ok(solution) => {
+                    #[cfg(selen_verif)]
+                    crate::verif_hooks::record_root_lp_solution(Some(&solution));
                     if LP_DEBUG {
                         eprintln!("LP: Solution status = {:?}", solution.status);
                     }
@@ -276,11 +280,15 @@ pub fn search_with_timeout_and_memory<M: Mode>(
                     vars = vars_mut;
                     #[cfg(selen_verif)]
                     crate::verif_hooks::note_root_lp_applied();
+                    #[cfg(selen_verif)]
+                    crate::verif_hooks::record_root_lp_vars_after(&vars);
                     if LP_DEBUG {
                         eprintln!("LP: Successfully applied LP bounds");
                     }
                 }
                 Err(e) => {
+                    #[cfg(selen_verif)]
+                    crate::verif_hooks::record_root_lp_solution(None);
                     if LP_DEBUG {
                         eprintln!("LP: Solver returned error: {:?}", e);
                     }
